@@ -38,6 +38,18 @@ pub assume_specification<T, E>[ Result::<T, E>::unwrap_or ](r: Result<T, E>, d: 
     where E: core::marker::Destruct, T: core::marker::Destruct
     ensures v == (match r { Ok(x) => x, Err(_) => d });
 
+/// core::cmp::{max, min}: uninterpreted for a general Ord, axiomatised for u64
+pub uninterp spec fn spec_cmp_max<T>(a: T, b: T) -> T;
+pub uninterp spec fn spec_cmp_min<T>(a: T, b: T) -> T;
+pub broadcast axiom fn axiom_cmp_max_u64(a: u64, b: u64)
+    ensures #[trigger] spec_cmp_max::<u64>(a, b) == (if b >= a { b } else { a });
+pub broadcast axiom fn axiom_cmp_min_u64(a: u64, b: u64)
+    ensures #[trigger] spec_cmp_min::<u64>(a, b) == (if b < a { b } else { a });
+pub assume_specification<T: Ord + core::marker::Destruct>[ core::cmp::max::<T> ](a: T, b: T) -> (r: T)
+    ensures r == spec_cmp_max::<T>(a, b);
+pub assume_specification<T: Ord + core::marker::Destruct>[ core::cmp::min::<T> ](a: T, b: T) -> (r: T)
+    ensures r == spec_cmp_min::<T>(a, b);
+
 /// `ToOwned for T: Clone` is defined in std as `self.clone()` / `*target = self.clone()`
 pub assume_specification<T: Clone>[ <T as std::borrow::ToOwned>::to_owned ](x: &T) -> (r: T)
     ensures cloned::<T>(*x, r);
@@ -96,6 +108,8 @@ pub broadcast group group_std_extra {
     axiom_string_key_model,
     axiom_pointee_eq_string,
     axiom_arc_cloned,
+    axiom_cmp_max_u64,
+    axiom_cmp_min_u64,
 }
 
 } // verus!
